@@ -21,6 +21,8 @@ SPEC = dict(
         "SymVerif.C11.judge_ok",
         "SymVerif.C11.certificate_sound",
         "SymVerif.C11.ex_judge_ok",
+        "SymVerif.C10.equiv_real",
+        "SymVerif.C11.library_result_has_value",
         "SymVerif.NF.equiv_sound",
     ],
     rule="one call mode(e, sigma, cache) per op line, mode in subs/xreplace/msubs/ssubs; e = random real expression "
